@@ -113,7 +113,15 @@ func c15Enumerate(tier string, seed int64, emit func(string, any)) {
 	// source or earlier on the VM (precompiled body), and faceless dice whose sides come from DefaultDiceSideExpr
 	for _, t := range []string{"2d3", "2d3k1", "3d2q2", "d4", "f", "b", "p1", "2d3min2"} {
 		for _, w := range []string{"&a = @; a", "&a = @; a + a", "func g(){ @ }; g()", "func g(){ @ }; g() + g()", "func g(n){ n + @ }; g(1)", "[@, @].sum()", "[@, 1] kh", "1 ? @ : 0", "x = @; x + x", "i = 0; s = 0; while i < 2 { i = i + 1; s = s + @ }; s", "{'k': @}.k"} {
+			if (t == "b" || t == "p1") && (strings.Count(w, "@") > 1 || strings.Contains(w, "a + a") || strings.Contains(w, "g() + g()") || strings.Contains(w, "x + x") || strings.Contains(w, "while")) {
+				continue // a D100 has 100 faces: one evaluation per case
+			}
 			emit("contexts", c15Case{Src: strings.ReplaceAll(w, "@", t)})
+		}
+		if t == "b" || t == "p1" {
+			emit("contexts", c15Case{Pre: "&pa = " + t, Src: "pa + 1"})
+			emit("contexts", c15Case{Pre: "func pg(){ " + t + " }", Src: "pg() + 1"})
+			continue
 		}
 		emit("contexts", c15Case{Pre: "&pa = " + t, Src: "pa + pa"})
 		emit("contexts", c15Case{Pre: "func pg(){ " + t + " }", Src: "pg() + pg()"})
@@ -125,7 +133,7 @@ func c15Enumerate(tier string, seed int64, emit func(string, any)) {
 		}
 	}
 	// numbers of sides far beyond what can be enumerated: the faces 1, 2, Y-1, Y stand for all
-	for _, y := range []string{"65", "1000", "65536", "2147483646", "2147483647", "2147483648", "3000000000", "4294967296", "1099511627776", "4611686018427387904", "9223372036854775806"} {
+	for _, y := range []string{"101", "1000", "65536", "2147483646", "2147483647", "2147483648", "3000000000", "4294967296", "1099511627776", "4611686018427387904", "9223372036854775806"} {
 		for _, t := range []string{"d@", "2d@", "2d@k1", "2d@q1", "3d@dl1", "d@ + 1", "d@优势"} {
 			if len(y) > 13 && (strings.HasPrefix(t, "2d@") && len(t) == 3 || strings.HasPrefix(t, "3d")) {
 				continue // the sum of several such dice does not fit the integer type; wrap-around is not this property's subject
@@ -161,7 +169,7 @@ func c15Run(raw json.RawMessage) harn.Result {
 		if cur == nil {
 			return 1, true
 		}
-		if sides > 64 {
+		if sides > 100 { // up to D100 (CoC) every face is enumerated
 			reps := []ds.IntType{1, 2, sides - 1, sides}
 			return reps[cur.Choose(4)], true
 		}
